@@ -350,3 +350,12 @@ def replay(ctx, kind, case):
                                   % (v, tt, case['want']))
                 break
             off += len(v)
+
+
+def witness(w):
+    from vlib import common
+    rec = common.Recorder(ID)
+    judge_region(rec, w, T.Literal if w['want'] == 'Token.Literal' else None)
+    if rec.violations:
+        return True, rec.violations[0]['detail']
+    return False, ''
